@@ -628,6 +628,12 @@ class CallMixin:
             return self.call_contract(fv.info, node, st, want)
         if fv.kind == "model":
             return fv.info(self, st, node, want)
+        if fv.kind == "unbound":
+            # _add(obj, x) with _add = set.add: the method call obj.add(x) (writes through to where obj lives)
+            call = ast.Call(func=ast.Attribute(value=node.args[0], attr=fv.info, ctx=ast.Load()), args=node.args[1:], keywords=node.keywords)
+            ast.copy_location(call, node)
+            ast.fix_missing_locations(call)
+            return self.method_call(call, st, want)
         if fv.kind == "bound":
             call = ast.Call(func=fv.info, args=node.args, keywords=node.keywords)
             ast.copy_location(call, node)
